@@ -4,6 +4,7 @@ Proof: coq/Properties/C02.v.  Tie: correspondence of the extracted writers with 
 write_packets (plaintext and Noise, the latter through an independent responder holding the keys) and
 with APIConnection.send_messages over SimNet; the documented format is checked directly on the bytes
 the implementation wrote (own decoders + the extracted Coq spec decoder)."""
+from vlib.privnames import priv, has_priv
 import asyncio
 import json
 import random
@@ -280,7 +281,7 @@ def run(rep, tier, seed):
             out = []
             with net.patched():
                 cli, tr = await simnet.connected_client(loop, net)
-                conn = cli._connection
+                conn = priv(cli, "_connection")
                 from checks.c14 import fill_message
                 classes = list(MESSAGE_TYPE_TO_PROTO.items())
                 batches = [[(i, cls())] for i, cls in classes]
